@@ -10,6 +10,8 @@ Bridge, part 3 (C16): the query methods of `PluginGroup` as translated on every 
 namespace MetadorModel.Bridge.PluginGroupFns
 open MetadorModel MetadorModel.Plugin MetadorModel.PluginPy
 
+-- (`pyDictGet_getD` is for the spelling `d.get(k, [])`, `pyOrList_get` for `d.get(k) or []`)
+set_option linter.unusedSimpArgs false in
 theorem gen_versions (grp : String) (b : Bool) (t : Table) (n : String) (v : Option Ver) :
     Gen.PluginGroupFns.versions grp b t n v = Plugin.versions grp t n v := by
   cases v <;> simp [Gen.PluginGroupFns.versions, Plugin.versions, pyOrList_get, pyDictGet_getD, truthy_gen_supports]
